@@ -57,6 +57,7 @@ package index
 // for "no document dropped or duplicated".)
 //@ func sort.Slice
 //@   trusted
+//@   flag only_for=index.sortDocuments
 //@   requires typeis(x, "[]rankedDoc")
 //@   ensures forall k int :: {as(x, "[]rankedDoc")[k]} 0 <= k && k < len(as(x, "[]rankedDoc")) ==> 0 <= sortPerm(k) && sortPerm(k) < len(as(x, "[]rankedDoc")) && as(x, "[]rankedDoc")[k].Document == old(as(x, "[]rankedDoc")[sortPerm(now(k))].Document)
 //@   ensures forall a, b int :: {sortPerm(a), sortPerm(b)} 0 <= a && a < b && b < len(as(x, "[]rankedDoc")) ==> sortPerm(a) != sortPerm(b)
@@ -102,6 +103,7 @@ package index
 // invariant reset relies on.
 //@ func sync.(*Pool).Get
 //@   trusted
+//@   flag only_for=index.(*Builder).getPostingsBuilder
 //@   ensures typeis(result, "*postingsBuilder") ==> as(result, "*postingsBuilder") != nil && okAsciiListed(as(result, "*postingsBuilder")) && okAsciiCovered(as(result, "*postingsBuilder")) && okMapVals(as(result, "*postingsBuilder"))
 //@   assigns nothing
 
